@@ -1,5 +1,6 @@
 import DvidModel.Model.Roi
 import DvidModel.Lemmas.Bytes
+import DvidModel.Lemmas.ImageBlk
 /-
   C18 — Spatial keys, packed block indices and run-length volumes preserve geometry.
 -/
@@ -324,5 +325,111 @@ example : I32 (-2147483648) ∧ I32 2147483647 ∧ Mag20 (-1048575) ∧ Mag20 10
   unfold I32 Mag20; omega
 example : voxOf (mergeAdjacent none [⟨-2, 0, 0, 7⟩, ⟨5, 0, 0, 3⟩, ⟨8, 0, 0, 1⟩]) (8, 0, 0) = true ∧
     mergeAdjacent none [⟨-2, 0, 0, 7⟩, ⟨5, 0, 0, 3⟩, ⟨8, 0, 0, 1⟩] = [⟨-2, 0, 0, 11⟩] := by decide
+
+end Dvid.Props.C18
+
+namespace Dvid.Props.C18
+open Dvid Dvid.Rle Dvid.Geom Dvid.ImageBlk
+
+/-! ### Partition: the fragments are exactly the voxels of the runs, each inside its block -/
+
+theorem voxOf_cons (r : RLE) (rs : List RLE) (p : Pos) : voxOf (r :: rs) p = (r.within p || voxOf rs p) := by
+  simp [voxOf]
+
+theorem partitionRun_spec (bs : Int) (hbs : 0 < bs) (y z : Int) (fuel : Nat) :
+    ∀ (bx bBegX rx remain : Int), bBegX = bx * bs → bBegX ≤ rx → rx < bBegX + bs → remain < fuel →
+      (∀ p, voxOf ((partitionRun bs y z fuel bx bBegX rx remain).map (·.2)) p = (⟨rx, y, z, remain⟩ : RLE).within p) ∧
+      (∀ cf ∈ partitionRun bs y z fuel bx bBegX rx remain,
+        1 ≤ cf.2.len ∧ cf.2.y = y ∧ cf.2.z = z ∧ cf.1 * bs ≤ cf.2.x ∧ cf.2.x + cf.2.len ≤ (cf.1 + 1) * bs) := by
+  induction fuel with
+  | zero =>
+    intro bx bBegX rx remain _ _ _ hr
+    constructor
+    · intro p
+      simp only [partitionRun, List.map_nil]
+      rw [Bool.eq_iff_iff]
+      simp only [voxOf, List.any_nil, Bool.false_eq_true, within_iff, false_iff]
+      simp at hr; omega
+    · intro cf hcf; simp [partitionRun] at hcf
+  | succ fuel ih =>
+    intro bx bBegX rx remain hb h1 h2 hr
+    unfold partitionRun
+    by_cases hrem : remain < 1
+    · simp only [hrem, if_true]
+      constructor
+      · intro p
+        rw [Bool.eq_iff_iff]
+        simp only [List.map_nil, voxOf, List.any_nil, Bool.false_eq_true, within_iff, false_iff]
+        omega
+      · intro cf hcf; cases hcf
+    · simp only [hrem, if_false]
+      have hb' : bBegX + bs = (bx + 1) * bs := by rw [Int.add_mul, Int.one_mul, hb]
+      obtain ⟨ihv, ihb⟩ := ih (bx + 1) (bBegX + bs) (rx + (bBegX + bs - rx)) (remain - (bBegX + bs - rx)) hb'
+        (by omega) (by omega) (by push_cast at hr ⊢; omega)
+      constructor
+      · intro p
+        simp only [List.map_cons]
+        rw [voxOf_cons, ihv p, Bool.eq_iff_iff]
+        simp only [Bool.or_eq_true, within_iff]
+        by_cases c : remain < bBegX + bs - rx
+        · simp only [c, if_true]; omega
+        · simp only [c, if_false]; omega
+      · intro cf hcf
+        rcases List.mem_cons.mp hcf with e | e
+        · subst e
+          simp only
+          rw [← hb, ← hb']
+          by_cases c : remain < bBegX + bs - rx
+          · simp only [c, if_true]; exact ⟨by omega, trivial, trivial, by omega, by omega⟩
+          · simp only [c, if_false]; exact ⟨by omega, trivial, trivial, by omega, by omega⟩
+        · exact ihb cf e
+
+theorem voxOf_flatMap {α : Type} (l : List α) (f : α → List RLE) (p : Pos) :
+    voxOf (l.flatMap f) p = l.any (fun a => voxOf (f a) p) := by
+  simp [voxOf, List.any_flatMap]
+
+/-- **`Partition` keeps the voxel set**: for every block size with a positive x extent and every run list, a
+    voxel is covered by some fragment exactly when it is covered by some run -/
+theorem partition_vox (bsx bsy bsz : Int) (hbs : 0 < bsx) (rs : List RLE) (p : Pos) :
+    voxOf ((partition bsx bsy bsz rs).map (·.2)) p = voxOf rs p := by
+  unfold partition
+  rw [List.map_flatMap, voxOf_flatMap]
+  unfold voxOf
+  congr 1
+  funext r
+  have hc := chunk_inBlock (x := r.x) hbs
+  unfold InBlock at hc
+  rw [Int.add_mul, Int.one_mul] at hc
+  have := (partitionRun_spec bsx hbs r.y r.z (r.len.toNat + 1) (chunk r.x bsx) (chunk r.x bsx * bsx) r.x r.len rfl hc.1 hc.2
+    (by have := Int.self_le_toNat r.len; push_cast; omega)).1 p
+  simp only [List.map_map]
+  have e : ((fun (x : (Int × Int × Int) × RLE) => x.2) ∘ fun (x : Int × RLE) => ((x.1, chunk r.y bsy, chunk r.z bsz), x.2)) = (·.2) := by
+    funext x; rfl
+  rw [e]
+  exact this
+
+/-- **every fragment lies inside the block it is filed under**: it is non-empty, its first and last voxel are in
+    block x of the fragment's key, and the key's y and z are the blocks of the run's row -/
+theorem partition_in_block (bsx bsy bsz : Int) (hbs : 0 < bsx) (rs : List RLE) :
+    ∀ cf ∈ partition bsx bsy bsz rs,
+      1 ≤ cf.2.len ∧ InBlock bsx cf.1.1 cf.2.x ∧ InBlock bsx cf.1.1 (cf.2.x + cf.2.len - 1) ∧
+      cf.1.2.1 = chunk cf.2.y bsy ∧ cf.1.2.2 = chunk cf.2.z bsz := by
+  intro cf hcf
+  unfold partition at hcf
+  obtain ⟨r, _, hr⟩ := List.mem_flatMap.mp hcf
+  obtain ⟨x, hx, rfl⟩ := List.mem_map.mp hr
+  have hc := chunk_inBlock (x := r.x) hbs
+  unfold InBlock at hc
+  rw [Int.add_mul, Int.one_mul] at hc
+  have := (partitionRun_spec bsx hbs r.y r.z (r.len.toNat + 1) (chunk r.x bsx) (chunk r.x bsx * bsx) r.x r.len rfl hc.1 hc.2
+    (by have := Int.self_le_toNat r.len; push_cast; omega)).2 x hx
+  obtain ⟨a, b, c, d, e⟩ := this
+  unfold InBlock
+  simp only
+  rw [b, c]
+  refine ⟨a, ⟨d, by omega⟩, ⟨by omega, by omega⟩, rfl, rfl⟩
+
+example : (partition 32 32 32 [⟨-3, 5, 40, 40⟩]).map (fun cf => (cf.1, cf.2.x, cf.2.len)) =
+    [((-1, 0, 1), -3, 3), ((0, 0, 1), 0, 32), ((1, 0, 1), 32, 5)] := by decide
 
 end Dvid.Props.C18
